@@ -11,6 +11,18 @@ def prove_lemmas(reg, th, ex_factory):
         from .types import fresh, Val, INT
         from .sym import State
         st = State(); st.env = {v: fresh(t, v) for v, t in L.vars.items()}
+        if L.induct is None:
+            # a plain (non-inductive) lemma: proved once, in isolation from every program hypothesis, then available as a triggered axiom (arithmetic facts that the
+            # solvers decide at once alone but not next to quantified invariants)
+            pre = [ex.spec_expr(L.requires, st, []).z] if L.requires else []; g = ex.spec_expr(L.stmt, st, []).z
+            mine = [Obligation(f"lemma.{L.name}.direct", "lemma", th.hyps() + pre, g)]
+            trig = ex.spec_expr(L.trigger, st, []).z if L.trigger else None; bound = [st.env[v].z for v in L.vars]; body = z3.Implies(z3.And(*pre), g) if pre else g
+            L._axiom = z3.ForAll(bound, body, patterns=[trig]) if trig is not None else z3.ForAll(bound, body)
+            discharge_all(mine); obs += mine
+            if all(o.status == "proved" for o in mine):
+                from .sym import symbols_of
+                th.lemma_axioms_tagged.append((L._axiom, symbols_of(L._axiom) & set(th.sf_axioms)))
+            continue
         n = st.env[L.induct].z
         def stmt_at(nz):
             s2 = st.copy(); s2.env[L.induct] = Val(INT, nz); return ex.spec_expr(L.stmt, s2, []).z
